@@ -179,7 +179,6 @@ RULES["C03"] = [
   ("print_char|MAG|into_iter(Range{0, *(first(&*deref(&*self.parsed_numbers)) as Some).0})", "known", "CSI Pn @ / P / L (ICH, DCH, IL): `for _ in 0..*number` with the parameter unclamped"),
   ("ansi_commands::Parser::scroll_left|MAG|", "known", "CSI Pn SP @ (SL): (0..num).for_each(scroll_left) unclamped"),
   ("ansi_commands::Parser::scroll_right|MAG|", "known", "CSI Pn SP A (SR): (0..num).for_each(scroll_right) unclamped"),
-  ("request_checksum_of_rectangular_area|MAG|", "known", "DECRQCRA: the rectangle's rows and columns are iterated as given (for y in top..bottom, for x in left..right), no clamp to the screen"),
   ("parse_hex_macro_sequence|MAG|", "known", "DECDMAC hex repeat group `!Pn;..;`: (0..repeat_number).for_each pushes the group that many times (a 20-byte DCS allocates gigabytes)"),
   ("parsers::Caret::check_scrolling_on_caret_up|MAG|loop(", "known", "CUU / CPL (CSI Pn A / F) inside a scroll region: the row is decremented by Pn (saturating) and the region is then scrolled down once per row of overshoot - ESC[1;5r ESC[2147483647A loops 2^31 times over the region"),
   ("sixel_mod::SixelParser::parse_char|MAG|into_iter(Range{0, *(first(", "known", "sixel repeat introducer `!Pn`: the following sixel is translated Pn times, unclamped"),
